@@ -63,7 +63,10 @@ func profileByName(name string) Profile {
 		p.W["rmdir"] = 2
 		p.W["truncate"] = 4
 		p.W["restart"] = 2
+		p.W["giveback"] = 8
+		p.W["indwrite"] = 10
 		p.MaxWrite = 60000
+		p.Fill = true
 	case "crashmix": // C01/C07: all mutating RPCs, three stability levels, big removals
 		p.W["write"] = 22
 		p.W["bigwrite"] = 3
@@ -144,6 +147,9 @@ func runSeq(idx int, seed int64, nops int, size uint64, prof string, unstable bo
 	for i := 0; i < nops; i++ {
 		if g.p.Reclaim && i >= nops*6/10 {
 			g.deleting = true
+		}
+		if g.p.Fill && i == 8 {
+			g.filling = 16
 		}
 		o := g.Next()
 		fmt.Fprintln(of, o.Sym())
